@@ -109,6 +109,19 @@ def pairs():
     # declarations
     add("quantified declaration with bounds from data", prog("min x_0", ["x_0 >= 1"], where=["let U = [4, 5]"], define=["x_i as Real(0, U[i]) for i in 0..2"]),
         prog("min x_0", ["x_0 >= 1"], define=["x_0 as Real(0, 4)", "x_1 as Real(0, 5)"]))
+    # constant arithmetic: a constant defined by an expression is the number the expression has (real division, also of
+    # two whole numbers), wherever it is evaluated: a `let`, a domain bound, an index, a range end
+    X = ["x, y as NonNegativeReal(0, 10)"]
+    add("constant: quotient of two whole numbers", prog("max x", ["x <= h"], where=["let h = 7 / 2"], define=X), prog("max x", ["x <= 3.5"], define=X))
+    add("constant: quotient below one", prog("min 4 * x + 3 * y", ["x + y >= k", "x + y <= 2 * k"], where=["let k = 1 / 2"], define=X), prog("min 4 * x + 3 * y", ["x + y >= 0.5", "x + y <= 2 * 0.5"], define=X))
+    add("constant: negative quotient", prog("max x", ["x - y <= q"], where=["let q = -7 / 2"], define=X), prog("max x", ["x - y <= -3.5"], define=X))
+    add("constant: exact quotient", prog("max x", ["x <= d"], where=["let d = 6 / 3"], define=X), prog("max x", ["x <= 2"], define=X))
+    add("constant: quotient in a domain bound", prog("max x", ["x + y <= 9"], define=["x as Real(0, 9 / 2)", "y as NonNegativeReal(1 / 4, 10 / 4)"]), prog("max x", ["x + y <= 9"], define=["x as Real(0, 4.5)", "y as NonNegativeReal(0.25, 2.5)"]))
+    add("constant: mixed arithmetic", prog("max x", ["x <= e", "y >= m"], where=["let e = 2 * (3 + 4) / 4", "let m = 3 * 2.5 - 7"], define=X), prog("max x", ["x <= 3.5", "y >= 0.5"], define=X))
+    add("constant: quotient of array elements and a length", prog("max x", ["x <= A[0] / 2", "y <= len(A) / 2"], where=["let A = [3, 1, 4]"], define=X), prog("max x", ["x <= 1.5", "y <= 1.5"], define=X))
+    add("constant: quotient of iteration values", prog("min x", ["x >= i / 2 for i in 1..4"], define=X), prog("min x", ["x >= 0.5", "x >= 1", "x >= 1.5"], define=X))
+    add("constant: constant from constants", prog("max x", ["x <= c"], where=["let a = 9", "let b = 2", "let c = a / b + b / a * 0"], define=X), prog("max x", ["x <= 4.5"], define=X))
+    add("constant: difference and product of whole numbers", prog("max x", ["x <= p", "y >= s"], where=["let p = 3 * 4 - 5", "let s = 2 - 5 + 4"], define=X), prog("max x", ["x <= 7", "y >= 1"], define=X))
     return out
 
 
@@ -257,12 +270,13 @@ def canonical(pair_label, text, RT):
     return roundtrip.concretise(t)
 
 
-def check(F, R, Gm, tier="quick"):
+def check(F, R, Gm, tier="quick", only=None):
+    """only: a label prefix -- just that group of pairs (shared with C03: constant arithmetic)"""
     RT = roundtrip.RoundTrip(F, Gm)
     RT.I.max_depth = 1500
     R.fn(TRANSFORM)
     R.fn("parser::recursive_set_resolver::recursive_set_resolver")
-    ps = pairs() + generated(tier)
+    ps = pairs() + generated(tier) if only is None else [p_ for p_ in pairs() if p_[0].startswith(only)]
     R.count("EXPAND-EQUIV.pairs", len(ps))
     for label, rolled, unrolled in ps:
         a = canonical(label, rolled, RT)
